@@ -43,6 +43,7 @@ func (fv *FuncVC) reset() {
 	fv.assumedUsed = map[string]bool{}
 	fv.mapIters = map[*ssa.Range]*mapIter{}
 	fv.localsByName = map[string][]*ssa.Alloc{}
+	fv.privCells = map[*ssa.Alloc]bool{}
 	fv.arrSnaps = nil
 	fv.allocSizes = nil
 	fv.sawStarHavoc = false
@@ -382,6 +383,39 @@ func (fv *FuncVC) checkInvariants(h *ssa.BasicBlock, kind string, from *ssa.Basi
 		}
 		fv.oblige(kind, fmt.Sprintf("loop%d#%s#from-b%d", fv.loopOrd[h], label, from.Index), fv.propsFor(inv), t.T, inv.Src, fv.posStr(fv.loopPos(h)))
 	}
+	if kind != "inv-preserve" || fv.con == nil {
+		return
+	}
+	// back-edge clauses: evaluated in the scope of the block the edge leaves
+	n := 0
+	for i, ec := range fv.con.LoopEdges[fv.loopOrd[h]] {
+		if ec.Before != "" {
+			if a := fv.findLocal(ec.Before, from); a != nil && (a.Block() == from || a.Block().Dominates(from)) && fv.loopBody[h][a.Block()] {
+				continue // the local is already declared on this edge: not an edge the clause is about
+			}
+		}
+		if ec.After != "" {
+			a := fv.findLocal(ec.After, from)
+			if a == nil || !(a.Block() == from || a.Block().Dominates(from)) || !fv.loopBody[h][a.Block()] {
+				continue // the local is not declared yet on this edge
+			}
+		}
+		env := fv.invariantEnv(h)
+		env.at = from
+		t := env.tr(ec.Expr)
+		fv.reportSpecErrs(env, ec)
+		label := ec.Label
+		if label == "" {
+			label = fmt.Sprintf("edge%d", i+1)
+		}
+		fv.oblige("assert", fmt.Sprintf("loop%d#backedge#%s#from-b%d", fv.loopOrd[h], label, from.Index), fv.propsFor(ec), t.T, ec.Src, fv.posStr(fv.loopPos(h)))
+		n++
+		if fv.edgeHits == nil {
+			fv.edgeHits = map[*Clause]int{}
+		}
+		fv.edgeHits[ec]++
+	}
+	_ = n
 }
 
 func (fv *FuncVC) assumeInvariants(h *ssa.BasicBlock) {
